@@ -102,6 +102,8 @@ def onEvent (s : S) (tid : String) (ev : String) : S :=
         if tid == s.trCloseTid && cd != "1" then s.bad "the channel context is not cancelled after the Close call that took effect returned" else s
       | _ => s
     if tid == s.winnerTid && s.winnerExternal && !s.winnerRetObs then ({ s with winnerRetObs := true }).ev (.closeRet true) ev else s
+  | ["wafter", cls] =>
+    if cls == "nil" then s.bad "a write issued after a Close call had returned (from inside the active handler) reported success" else s
   | "exit" :: _ => { s with loopExited := true }
   | _ => s
 
